@@ -10,23 +10,23 @@
 import BlocV.Proofs.Lemmas.NoHazardLoops
 namespace BlocV.NHI
 open BlocV BlocV.Lemmas
-variable {bad : Hazard → Bool}
+variable {bad : Hazard → Bool} {sub : Bool}
 
 /-- the statement of the mutual induction, at one fuel -/
-def AllNH (bad : Hazard → Bool) (funcs : List Func) (fuel : Nat) : Prop :=
-  (∀ L depth e, lockE L e = true → litE e = true → NH bad (Inv L) okV (eval funcs depth fuel e)) ∧
-  (∀ L depth name args, lockEs L args = true → litEs args = true → NH bad (Inv L) okV (callFunc funcs depth fuel name args)) ∧
-  (∀ L depth args, lockEs L args = true → litEs args = true → NH bad (Inv L) (fun vs => okVals vs = true) (evalArgs funcs depth fuel args)) ∧
-  (∀ L depth body catches, lockL L body = true → lockCatches L catches = true → litL body = true → litCatches catches = true →
+def AllNH (bad : Hazard → Bool) (sub : Bool) (funcs : List Func) (fuel : Nat) : Prop :=
+  (∀ L depth e, lockE L e = true → litE sub e = true → NH bad (Inv L) okV (eval funcs depth fuel e)) ∧
+  (∀ L depth name args, lockEs L args = true → litEs sub args = true → NH bad (Inv L) okV (callFunc funcs depth fuel name args)) ∧
+  (∀ L depth args, lockEs L args = true → litEs sub args = true → NH bad (Inv L) (fun vs => okVals vs = true) (evalArgs funcs depth fuel args)) ∧
+  (∀ L depth body catches, lockL L body = true → lockCatches L catches = true → litL sub body = true → litCatches sub catches = true →
       NH bad (Inv L) (fun _ => True) (execBlock funcs depth fuel body catches)) ∧
-  (∀ L depth l, lockL L l = true → litL l = true → NH bad (Inv L) (fun _ => True) (execList funcs depth fuel l)) ∧
-  (∀ L depth st, lockS L st = true → litS st = true → NH bad (Inv L) (fun _ => True) (exec funcs depth fuel st)) ∧
-  (∀ L depth es, lockEs L es = true → litEs es = true → NH bad (Inv L) (fun _ => True) (evalPrint funcs depth fuel es)) ∧
-  (∀ L depth rules, lockRules L rules = true → litRules rules = true → NH bad (Inv L) (fun _ => True) (execIf funcs depth fuel rules))
+  (∀ L depth l, lockL L l = true → litL sub l = true → NH bad (Inv L) (fun _ => True) (execList funcs depth fuel l)) ∧
+  (∀ L depth st, lockS L st = true → litS sub st = true → NH bad (Inv L) (fun _ => True) (exec funcs depth fuel st)) ∧
+  (∀ L depth es, lockEs L es = true → litEs sub es = true → NH bad (Inv L) (fun _ => True) (evalPrint funcs depth fuel es)) ∧
+  (∀ L depth rules, lockRules L rules = true → litRules sub rules = true → NH bad (Inv L) (fun _ => True) (execIf funcs depth fuel rules))
 
 theorem nargs_of_ih (funcs : List Func) (fuel depth : Nat) (L : List String)
-    (ihE : ∀ L depth e, lockE L e = true → litE e = true → NH bad (Inv L) okV (eval funcs depth fuel e))
-    (args : List Expr) (hl : lockEs L args = true) (hv : litEs args = true) :
+    (ihE : ∀ L depth e, lockE L e = true → litE sub e = true → NH bad (Inv L) okV (eval funcs depth fuel e))
+    (args : List Expr) (hl : lockEs L args = true) (hv : litEs sub args = true) :
     NArgs bad (Inv L) (args.map (eval funcs depth fuel)) :=
   NArgs.map_mem _ _ (fun a ha => ihE L depth a (lockEs_mem L _ hl a ha) (litEs_mem _ hv a ha))
 
@@ -35,8 +35,8 @@ theorem eval_var_app (funcs : List Func) (depth fuel : Nat) (n : String) (s : St
   simp only [eval, bind_app, getSt_app, liftM_app]
 
 set_option maxHeartbeats 1000000 in
-theorem eval_nh_step (hb : bad .signedOverflow = false) (funcs : List Func) (fuel : Nat) (ih : AllNH bad funcs fuel)
-    (L : List String) (depth : Nat) (e : Expr) (hl : lockE L e = true) (hv : litE e = true) :
+theorem eval_nh_step (hb : bad .signedOverflow = false ∨ sub = false) (funcs : List Func) (fuel : Nat) (ih : AllNH bad sub funcs fuel)
+    (L : List String) (depth : Nat) (e : Expr) (hl : lockE L e = true) (hv : litE sub e = true) :
     NH bad (Inv L) okV (eval funcs depth (fuel + 1) e) := by
   obtain ⟨ihE, ihC, ihA, -, -, -, -, -⟩ := ih
   unfold eval
@@ -75,18 +75,26 @@ theorem eval_nh_step (hb : bad .signedOverflow = false) (funcs : List Func) (fue
     exact NH.lift (evalBin_nhr _ v1 v2 _ h1 h2)
   · -- tab
     have hl' := hl; simp only [lockE] at hl'
-    have hv' := hv; simp only [litE] at hv'
-    exact biTab_nh _ (nargs_of_ih funcs fuel depth L ihE _ hl' hv')
+    have hv' := hv; simp only [litE, Bool.and_eq_true] at hv'
+    exact biTab_nh _ (nargs_of_ih funcs fuel depth L ihE _ hl' hv'.2)
   · -- tup
     have hl' := hl; simp only [lockE] at hl'
-    have hv' := hv; simp only [litE] at hv'
-    exact biTup_nh _ (nargs_of_ih funcs fuel depth L ihE _ hl' hv')
+    have hv' := hv; simp only [litE, Bool.and_eq_true] at hv'
+    exact biTup_nh _ (nargs_of_ih funcs fuel depth L ihE _ hl' hv'.2)
   · -- call
+    rename_i name args _ _
     have hl' := hl; simp only [lockE] at hl'
-    have hv' := hv; simp only [litE] at hv'
+    have hv' := hv; simp only [litE, Bool.and_eq_true] at hv'
+    have hb' : bad .signedOverflow = false ∨ (name ≠ "substr" ∧ name ≠ "subraw") := by
+      rcases hb with h | h
+      · exact .inl h
+      · have h1 := hv'.1
+        subst h
+        simp only [Bool.false_or, Bool.and_eq_true, bne_iff_ne, ne_eq] at h1
+        exact .inr h1
     split
     · rename_i r hr
-      exact evalBuiltin_nh (.inl hb) _ _ (nargs_of_ih funcs fuel depth L ihE _ hl' hv') r hr
+      exact evalBuiltin_nh hb' _ _ (nargs_of_ih funcs fuel depth L ihE _ hl' hv'.2) r hr
     · exact NH.lift NHR.unm
   · -- fcall
     have hl' := hl; simp only [lockE] at hl'
@@ -221,8 +229,8 @@ theorem finishCall_nh (L : List String) (caller : St) (r : Res Flow × St) (hc :
   | haz x => exact ⟨fun y e => by cases e; exact h1 x rfl, hback, fun a e => by cases e⟩
   | unmodelled => exact ⟨nb_triv (fun _ e => by cases e), hback, fun a e => by cases e⟩
 
-theorem callFunc_nh_step (funcs : List Func) (hF : FuncsOk funcs) (fuel : Nat) (ih : AllNH bad funcs fuel)
-    (L : List String) (depth : Nat) (name : String) (args : List Expr) (hl : lockEs L args = true) (hv : litEs args = true) :
+theorem callFunc_nh_step (funcs : List Func) (hF : FuncsOk sub funcs) (fuel : Nat) (ih : AllNH bad sub funcs fuel)
+    (L : List String) (depth : Nat) (name : String) (args : List Expr) (hl : lockEs L args = true) (hv : litEs sub args = true) :
     NH bad (Inv L) okV (callFunc funcs depth (fuel + 1) name args) := by
   obtain ⟨-, -, ihA, ihB, -, -, -, -⟩ := ih
   unfold callFunc
@@ -237,23 +245,23 @@ theorem callFunc_nh_step (funcs : List Func) (hF : FuncsOk funcs) (fuel : Nat) (
       have hcal := ihB [] (depth + 1) f.body f.catches hf.1 hf.2.1 hf.2.2.1 hf.2.2.2 _ (inv_calleeInit f vals caller hvals)
       exact finishCall_nh L caller _ hc hcal.1 hcal.2.1
 
-theorem evalArgs_nh_step (funcs : List Func) (fuel : Nat) (ih : AllNH bad funcs fuel)
-    (L : List String) (depth : Nat) (args : List Expr) (hl : lockEs L args = true) (hv : litEs args = true) :
+theorem evalArgs_nh_step (funcs : List Func) (fuel : Nat) (ih : AllNH bad sub funcs fuel)
+    (L : List String) (depth : Nat) (args : List Expr) (hl : lockEs L args = true) (hv : litEs sub args = true) :
     NH bad (Inv L) (fun vs => okVals vs = true) (evalArgs funcs depth (fuel + 1) args) := by
   obtain ⟨ihE, -, ihA, -, -, -, -, -⟩ := ih
   cases args with
   | nil => unfold evalArgs; exact NH.pure rfl
   | cons a as =>
     have h : lockE L a = true ∧ lockEs L as = true := by simpa [lockEs] using hl
-    have h' : litE a = true ∧ litEs as = true := by simpa [litEs] using hv
+    have h' : litE sub a = true ∧ litEs sub as = true := by simpa [litEs] using hv
     unfold evalArgs
     refine NH.bind (ihE L _ _ h.1 h'.1) (fun v h1 => ?_)
     refine NH.bind (ihA L _ _ h.2 h'.2) (fun vs h2 => ?_)
     exact NH.pure (by simp [h1, h2])
 
-theorem execBlock_nh_step (funcs : List Func) (fuel : Nat) (ih : AllNH bad funcs fuel)
+theorem execBlock_nh_step (funcs : List Func) (fuel : Nat) (ih : AllNH bad sub funcs fuel)
     (L : List String) (depth : Nat) (body : List Stmt) (catches : List (String × List Stmt))
-    (hb : lockL L body = true) (hc : lockCatches L catches = true) (hvb : litL body = true) (hvc : litCatches catches = true) :
+    (hb : lockL L body = true) (hc : lockCatches L catches = true) (hvb : litL sub body = true) (hvc : litCatches sub catches = true) :
     NH bad (Inv L) (fun _ => True) (execBlock funcs depth (fuel + 1) body catches) := by
   obtain ⟨-, -, -, -, ihL, -, -, -⟩ := ih
   unfold execBlock
@@ -279,38 +287,38 @@ theorem execBlock_nh_step (funcs : List Func) (fuel : Nat) (ih : AllNH bad funcs
       · exact ⟨nb_triv (fun _ e => by cases e), h1.2.1, fun _ _ => trivial⟩
   · exact ⟨h1.1, h1.2.1, fun _ _ => trivial⟩
 
-theorem execList_nh_step (funcs : List Func) (fuel : Nat) (ih : AllNH bad funcs fuel)
-    (L : List String) (depth : Nat) (l : List Stmt) (hl : lockL L l = true) (hv : litL l = true) :
+theorem execList_nh_step (funcs : List Func) (fuel : Nat) (ih : AllNH bad sub funcs fuel)
+    (L : List String) (depth : Nat) (l : List Stmt) (hl : lockL L l = true) (hv : litL sub l = true) :
     NH bad (Inv L) (fun _ => True) (execList funcs depth (fuel + 1) l) := by
   obtain ⟨-, -, -, -, ihL, ihS, -, -⟩ := ih
   cases l with
   | nil => unfold execList; exact NH.pure trivial
   | cons a as =>
     have h : lockS L a = true ∧ lockL L as = true := by simpa [lockL] using hl
-    have h' : litS a = true ∧ litL as = true := by simpa [litL] using hv
+    have h' : litS sub a = true ∧ litL sub as = true := by simpa [litL] using hv
     unfold execList
     refine NH.bind (ihS L _ _ h.1 h'.1) (fun fl _ => ?_)
     split
     · exact ihL L _ _ h.2 h'.2
     · exact NH.pure trivial
 
-theorem evalPrint_nh_step (funcs : List Func) (fuel : Nat) (ih : AllNH bad funcs fuel)
-    (L : List String) (depth : Nat) (l : List Expr) (hl : lockEs L l = true) (hv : litEs l = true) :
+theorem evalPrint_nh_step (funcs : List Func) (fuel : Nat) (ih : AllNH bad sub funcs fuel)
+    (L : List String) (depth : Nat) (l : List Expr) (hl : lockEs L l = true) (hv : litEs sub l = true) :
     NH bad (Inv L) (fun _ => True) (evalPrint funcs depth (fuel + 1) l) := by
   obtain ⟨ihE, -, -, -, -, -, ihP, -⟩ := ih
   cases l with
   | nil => unfold evalPrint; exact NH.pure trivial
   | cons a as =>
     have h : lockE L a = true ∧ lockEs L as = true := by simpa [lockEs] using hl
-    have h' : litE a = true ∧ litEs as = true := by simpa [litEs] using hv
+    have h' : litE sub a = true ∧ litEs sub as = true := by simpa [litEs] using hv
     unfold evalPrint
     refine NH.bind (ihE L _ _ h.1 h'.1) (fun v h1 => ?_)
     refine NH.bind_lift (nb_of_nh (printVal_nh v)) (fun bs _ => ?_)
     refine NH.bind (NH.modifySt (fun st hst => hst.congr rfl rfl rfl)) (fun _ _ => ?_)
     exact ihP L _ _ h.2 h'.2
 
-theorem execIf_nh_step (funcs : List Func) (fuel : Nat) (ih : AllNH bad funcs fuel)
-    (L : List String) (depth : Nat) (l : List (Option Expr × List Stmt)) (hl : lockRules L l = true) (hv : litRules l = true) :
+theorem execIf_nh_step (funcs : List Func) (fuel : Nat) (ih : AllNH bad sub funcs fuel)
+    (L : List String) (depth : Nat) (l : List (Option Expr × List Stmt)) (hl : lockRules L l = true) (hv : litRules sub l = true) :
     NH bad (Inv L) (fun _ => True) (execIf funcs depth (fuel + 1) l) := by
   obtain ⟨ihE, -, -, -, ihL, -, -, ihI⟩ := ih
   cases l with
@@ -320,12 +328,12 @@ theorem execIf_nh_step (funcs : List Func) (fuel : Nat) (ih : AllNH bad funcs fu
     cases c with
     | none =>
       have h : lockL L b = true ∧ lockRules L as = true := by simpa [lockRules] using hl
-      have h' : litL b = true ∧ litRules as = true := by simpa [litRules] using hv
+      have h' : litL sub b = true ∧ litRules sub as = true := by simpa [litRules] using hv
       unfold execIf
       exact ihL L _ _ h.1 h'.1
     | some x =>
       have h : (lockE L x = true ∧ lockL L b = true) ∧ lockRules L as = true := by simpa [lockRules] using hl
-      have h' : (litE x = true ∧ litL b = true) ∧ litRules as = true := by simpa [litRules] using hv
+      have h' : (litE sub x = true ∧ litL sub b = true) ∧ litRules sub as = true := by simpa [litRules] using hv
       unfold execIf
       refine NH.bind (ihE L _ _ h.1.1 h'.1.1) (fun v h1 => ?_)
       refine NH.bind_lift (nb_of_nh (condTaken_nh v h1)) (fun t _ => ?_)
@@ -493,8 +501,8 @@ theorem NH.tick {I : St → Prop} {α} {Q : α → Prop} (x : EvalM α) (hx : NH
     exact hx _ (hI s0 hs0)
 
 set_option maxHeartbeats 1000000 in
-theorem exec_nh_step (funcs : List Func) (fuel : Nat) (ih : AllNH bad funcs fuel)
-    (L : List String) (depth : Nat) (st : Stmt) (hl : lockS L st = true) (hv : litS st = true) :
+theorem exec_nh_step (funcs : List Func) (fuel : Nat) (ih : AllNH bad sub funcs fuel)
+    (L : List String) (depth : Nat) (st : Stmt) (hl : lockS L st = true) (hv : litS sub st = true) :
     NH bad (Inv L) (fun _ => True) (exec funcs depth (fuel + 1) st) := by
   obtain ⟨ihE, -, -, ihB, ihL, -, ihP, ihI⟩ := ih
   unfold exec
@@ -505,7 +513,7 @@ theorem exec_nh_step (funcs : List Func) (fuel : Nat) (ih : AllNH bad funcs fuel
     · -- letS
       rename_i n e
       have h := hl; simp only [lockS, Bool.and_eq_true] at h
-      have hv' : litE e = true := by simpa [litS] using hv
+      have hv' : litE sub e = true := by simpa [litS] using hv
       refine NH.getSt_bind (fun s1 hs1 => ?_)
       cases hf : s1.iters.find? (·.it == n) with
       | none =>
@@ -586,7 +594,7 @@ theorem exec_nh_step (funcs : List Func) (fuel : Nat) (ih : AllNH bad funcs fuel
           | dsimp only)
       | some se =>
         have hse : lockE L se = true := by simpa using hstep
-        have hlse : litE se = true := by simpa using hlstep
+        have hlse : litE sub se = true := by simpa using hlstep
         repeat' (first
           | with_reducible refine NH.pure ?_
           | trivial
@@ -699,7 +707,7 @@ theorem exec_nh_step (funcs : List Func) (fuel : Nat) (ih : AllNH bad funcs fuel
 
 /-- **The mutual induction**: from a well-formed state, code the parser accepts under the lock `L` never reaches a hazard that counts,
 and leaves a well-formed state — for all eight functions of the interpreter. -/
-theorem nh_all (hb : bad .signedOverflow = false) (funcs : List Func) (hF : FuncsOk funcs) : ∀ fuel, AllNH bad funcs fuel := by
+theorem nh_all (hb : bad .signedOverflow = false ∨ sub = false) (funcs : List Func) (hF : FuncsOk sub funcs) : ∀ fuel, AllNH bad sub funcs fuel := by
   intro fuel
   induction fuel with
   | zero =>
